@@ -1075,10 +1075,15 @@ func storesEquals(fn *ssa.Function, d int) bool {
 		case *ssa.Call:
 			sc := x.Call.StaticCallee()
 			if sc != nil && sc.Pkg == fn.Pkg && sc != fn && sc.Signature.Results().Len() == 1 {
-				if sl, ok := sc.Signature.Results().At(0).Type().Underlying().(*types.Slice); ok {
-					if b, ok := sl.Elem().Underlying().(*types.Basic); ok && b.Kind() == types.Uint8 && storesEquals(sc, d+1) {
-						found = true
+				// a helper building the pattern, or a constructor of an extractor object that holds it
+				takesKey := false
+				for _, prm := range sc.Params {
+					if isString(prm.Type()) {
+						takesKey = true
 					}
+				}
+				if takesKey && storesEquals(sc, d+1) {
+					found = true
 				}
 			}
 		}
